@@ -91,6 +91,7 @@ PATTERNS = [(c, re.compile(r)) for c, r in [
     ('setTypeNotUnsigned', r"^underlying type must be unsigned"),
     ('choiceIndexOutOfRange', r"^choice index `\d+` is out of valid range"),
     ('offsetTooSmall', r"^custom offset \(\d+\) is less than minimum possible"),
+    ('offsetOverflow', r"^offset \(\d+\) plus size \(\d+\) is too big"),
     ('cyclicReference', r"^cyclic reference detected"),
     ('headerMissingElement', r"header `.*` doesn't have required `.*` element"),
     ('headerElementKind', r"header element `.*` must be a type or a ref"),
